@@ -586,23 +586,13 @@ class Engine:
         self.w.server.push(ME, ResetDistributed.Response())
 
     async def _act_sessloss(self, ev, rec):
-        from aioslsk.network.connection import ConnectionState
         await self._server_ready()
         self.abstract.append('sessloss' + ('+during' if ev.get('during') else ''))
         # the documents do not say what the child limits are after the session is gone
         self.limits_allowed = None
         self.limits_pending = None
         # the harness' own proposal history is kept per session (the library's cache is read in any case)
-        self.proposed_processed = set()
-        self.w.server.session_of(ME).close('rst')
-        sc = self.client.network.server_connection
-        for _ in range(400):
-            await asyncio.sleep(0.005)
-            if sc.state == ConnectionState.CLOSED and self.client.session is None:
-                break
-        else:
-            raise RuntimeError('client never noticed the loss of the server link')
-        await settle(0.0)
+        await self.drop_session()
         nested = []
         for sub in ev.get('during') or []:
             # events of the peers while the client has no session
@@ -618,6 +608,25 @@ class Engine:
         if nested:
             await asyncio.gather(*nested, return_exceptions=True)
             await settle(0.05 if self.overlap else SETTLE)
+        await self.relogin()
+
+    async def drop_session(self):
+        """The server resets the link; returns once the client has destroyed its session."""
+        from aioslsk.network.connection import ConnectionState
+        self.limits_allowed = None
+        self.limits_pending = None
+        self.proposed_processed = set()
+        self.w.server.session_of(ME).close('rst')
+        sc = self.client.network.server_connection
+        for _ in range(400):
+            await asyncio.sleep(0.005)
+            if sc.state == ConnectionState.CLOSED and self.client.session is None:
+                break
+        else:
+            raise RuntimeError('client never noticed the loss of the server link')
+        await settle(0.0)
+
+    async def relogin(self):
         await self.h.call(self.client.network.connect_server())
         await self.h.call(self.client.login())
         self.add_obs('relogins')
@@ -1271,7 +1280,7 @@ def gen_c14(rng: random.Random) -> dict:
     spare = rest[len(children):]
     candidate = spare[0] if spare and rng.random() < 0.6 else None
     steps: list = []          # events and 'burst' markers
-    family = rng.choices(['plain', 'many-proposals', 'closing-child'], [64, 16, 20])[0]
+    family = rng.choices(['plain', 'many-proposals', 'closing-child', 'asker-closes'], [52, 16, 18, 14])[0]
     slow = None
     if family == 'many-proposals':
         # more proposed names than the potential-parent cache holds; the connect to the first proposed user is slow
@@ -1331,9 +1340,33 @@ def gen_c14(rng: random.Random) -> dict:
             carrier = 'server'
         return {'e': 'search', 'carrier': carrier, 'user': rng.choice(users_pool), 'ticket': ticket[0], 'query': None}
 
+    open_askers = [a for a in ASKERS if not search_blocked(blocked, a)]
+    close_asker = rng.choice(open_askers) if family == 'asker-closes' and open_askers else None
+
+    def asker_pair():
+        # two requests with matches from one asker; the asker closes the connection that carried the first reply
+        # around the moment the second request is processed
+        r1, r2 = request(), request()
+        for r in (r1, r2):
+            r.update(user=close_asker, want_match=True)
+        offset = rng.choice([0.0, 0.0, 0.001, 0.003])
+        return [{'burst': [r1]},
+                {'burst': [r2], 'asker_close': {'user': close_asker, 'how': rng.choice(['close', 'close', 'abort']),
+                                                'offset': offset,
+                                                'order': rng.choice(['close-first', 'search-first']) if not offset
+                                                else 'close-first'}}]
+
     for b in range(n_bursts):
+        if close_asker and rng.random() < 0.75:
+            steps.extend(asker_pair())
         burst = {'burst': [request() for _ in range(rng.choice([1, 2, 2, 3]))]}
         steps.append(burst)
+        if state['parent'] is not None and family != 'closing-child' and rng.random() < 0.15:
+            # the server link is lost while the parent keeps sending searches (the tree connections stay open)
+            burst['no_session'] = True
+            for r in burst['burst']:
+                if r['carrier'] == 'server':
+                    r['carrier'] = rng.choice(['distributed', 'legacy'])
         if family == 'closing-child' and len(state['children']) >= 2 and rng.random() < 0.7:
             # one child closes at the instant the requests are sent; its siblings must still get them
             c = rng.choice(state['children'][:-1] if rng.random() < 0.7 else state['children'])
@@ -1373,8 +1406,13 @@ def gen_c14(rng: random.Random) -> dict:
     indirect = {p: rng.choices(['ignore', 'pierce'], [70, 30])[0] for p in list(ASKERS) + peers}
     if slow:
         indirect[slow] = 'ignore'            # else the pierced connection is there long before
+    if close_asker:
+        indirect[close_asker] = 'ignore'     # one connection per reply
+    # an application listener that suspends while a peer connection is CLOSING (listeners are public API)
+    suspend = rng.choice([None, 0.005, 0.005]) if family == 'asker-closes' else None
     return {'dirs': dirs, 'friends': friends, 'blocked': blocked, 'n_peers': n_peers, 'steps': steps,
-            'pool': pool, 'overlap': rng.random() < 0.5, 'family': family, 'aligned': family == 'closing-child',
+            'pool': pool, 'overlap': rng.random() < 0.5, 'family': family,
+            'aligned': family in ('closing-child', 'asker-closes'), 'suspend_listener': suspend,
             'indirect': indirect, 'connect_mode': rng.choice(['race', 'fallback'])}
 
 
@@ -1403,9 +1441,35 @@ def _fill_queries(rng: random.Random, plan: dict, model) -> None:
         for req in st.get('burst', []):
             if req.get('query') is None:
                 q = gen.query()
-                if rng.random() < 0.45 and gen.words:        # more requests with matches
+                if req.get('want_match') and gen.words:
+                    q = gen.word()
+                elif rng.random() < 0.45 and gen.words:        # more requests with matches
                     q = rng.choice([gen.word, gen.word, gen.wild_single, gen.punct])()
                 req['query'] = q
+
+
+def written_replies(w: World, user: str) -> list:
+    """PeerSearchReply frames the client wrote on any (clear) connection between it and ``user``."""
+    from aioslsk.protocol.messages import PeerMessage, PeerSearchReply
+    out = []
+    for c in w.net.conns:
+        if {c.src, c.dst} != {ME, user}:
+            continue
+        data = c.stream('a2b' if c.src == ME else 'b2a', delivered=False)
+        pos = 0
+        while pos + 4 <= len(data):
+            n = int.from_bytes(data[pos:pos + 4], 'little')
+            frame = data[pos:pos + 4 + n]
+            pos += 4 + n
+            if len(frame) < 4 + n:
+                break
+            try:
+                m = PeerMessage.deserialize_request(frame)
+            except Exception:  # noqa  init frames, other protocols
+                continue
+            if isinstance(m, PeerSearchReply.Request):
+                out.append(m)
+    return out
 
 
 def run_c14_case(res: dict, params: dict):
@@ -1460,6 +1524,16 @@ def run_c14_case(res: dict, params: dict):
         for name in list(DPEERS[:plan['n_peers']]) + list(ASKERS):
             peers[name] = await w.add_peer(name)
         await settle(SETTLE)
+        if plan.get('suspend_listener'):
+            from aioslsk.events import ConnectionStateChangedEvent
+            from aioslsk.network.connection import ConnectionState, PeerConnection
+
+            async def suspending_listener(ev):
+                c = ev.connection
+                if isinstance(c, PeerConnection) and c.connection_type == 'P' and ev.state == ConnectionState.CLOSING:
+                    await asyncio.sleep(plan['suspend_listener'])
+            holder['listener'] = suspending_listener
+            h.client.events.register(ConnectionStateChangedEvent, suspending_listener)
         eng = Engine(w, h, peers, random.Random(f'{w.seed}:eng'), overlap=plan['overlap'],
                      indirect=plan['indirect'], judge_c13=False, aligned=bool(plan.get('aligned')))
         runner.add_cover(res, 'families', plan.get('family', 'plain'))
@@ -1537,6 +1611,26 @@ def run_c14_case(res: dict, params: dict):
                 add('bursts_with_parent', 1 if plink is not None else 0)
                 reply_mark = len(eng.own_replies)
                 srv_mark = len(w.server.frames)
+                no_session = bool(st.get('no_session')) and plink is not None
+                if no_session:
+                    # the server link is lost; the distributed connections stay open and the parent keeps searching
+                    await eng.drop_session()
+                    add('bursts_without_session')
+                ac = st.get('asker_close')
+                a_links = []
+                if ac:
+                    a_links = [l for l in peers[ac['user']].links if l.typ == 'P' and eng.link_alive(l)]
+                wire = bool(a_links)
+
+                def close_asker_links():
+                    for l in a_links:
+                        l.abort() if ac['how'] == 'abort' else l.close()
+                if wire:
+                    add('bursts_with_asker_closing')
+                    if ac['order'] == 'close-first':
+                        close_asker_links()
+                        if ac['offset']:
+                            await asyncio.sleep(ac['offset'])
                 reqs = []
                 if leaver_links:
                     # one child closes at the very instant the requests are sent (latencies are aligned): its FIN and
@@ -1549,9 +1643,13 @@ def run_c14_case(res: dict, params: dict):
                     req = dict(req)
                     if req['carrier'] != 'server' and plink is None:
                         req['carrier'] = 'server'
+                    if no_session and req['carrier'] == 'server':
+                        req['carrier'] = 'distributed'
                     reqs.append(req)
                     eng.apply(req)
-                    if leaver_links:
+                    if wire and ac['order'] == 'search-first':
+                        close_asker_links()
+                    if leaver_links or wire:
                         continue
                     if plan['overlap']:
                         await _gap(rng.choice([['y', 0], ['y', 1], ['y', 3], ['t', 0.002], ['t', 0.01]]))
@@ -1562,6 +1660,9 @@ def run_c14_case(res: dict, params: dict):
                     eng.apply(leave)
                 await eng.drain()
                 await settle(1.0)
+                if no_session:
+                    await eng.relogin()
+                    await settle(SETTLE)
                 k_after = {l.conn.id for l in eng.child_links() if not eng.requested_link(l)}
                 k_after |= {sc.id for _u, sc in eng.accepted_open() if sc.id in dropped_ids}
                 same_parent = eng.parent_link() is plink
@@ -1585,7 +1686,7 @@ def run_c14_case(res: dict, params: dict):
                     unspecified_forward = carrier == 'server' and plink is not None
                     if own:
                         add('own_name_requests')
-                    info = dict(request=req, children=[l.peer.name for l in K],
+                    info = dict(request=req, without_session=no_session, children=[l.peer.name for l in K],
                                 parent=None if plink is None else plink.peer.name,
                                 candidates_in_children_list=counted_as_child,
                                 child_closing_at_that_instant=leaver if leaver_links else None)
@@ -1615,6 +1716,7 @@ def run_c14_case(res: dict, params: dict):
                             if n == 0 and l.conn.id in k_after and same_parent and not unspecified_forward:
                                 violate('forward:missing:child-dropped-without-closing' if l.conn.id in dropped_ids
                                         else 'forward:missing:while-a-child-closes' if leaver_links
+                                        else f'forward:missing:{carrier}:without-session' if no_session
                                         else f'forward:missing:{carrier}', child=l.peer.name, **info)
                             elif n > 1:
                                 violate(f'forward:duplicate:{carrier}', child=l.peer.name, copies=n, **info)
@@ -1642,6 +1744,10 @@ def run_c14_case(res: dict, params: dict):
                     if (K or counted_as_child) and not own:
                         nontrivial['v'] = True
                     # ---- reply -------------------------------------------------------------------
+                    if no_session:
+                        # without the server the asker cannot be looked up: the reply is not judged
+                        add('replies_unjudged_no_session')
+                        continue
                     if own:
                         got_own = [m for _t, m in eng.own_replies[reply_mark:] if m.ticket == tk]
                         asked_addr = [m for _t, u, m in w.server.frames[srv_mark:]
@@ -1653,6 +1759,11 @@ def run_c14_case(res: dict, params: dict):
                         continue
                     replies = [(l, m) for name, l, m in arrivals
                                if name == user and isinstance(m, PeerSearchReply.Request) and m.ticket == tk]
+                    if wire and user == ac['user']:
+                        # the asker closed a connection around that moment: a reply counts when the client WROTE it on
+                        # a connection to the asker (it may have been written into the connection that was closing)
+                        replies = [(None, m) for m in written_replies(w, user) if m.ticket == tk]
+                        add('replies_judged_on_the_wire')
                     sel = model.select(query)
                     if sel is None:
                         add('replies_unjudged_no_inclusion_term')
@@ -1678,7 +1789,11 @@ def run_c14_case(res: dict, params: dict):
                     if lck:
                         add('replies_with_locked_expected')
                     if not replies:
-                        violate('reply:missing', **rinfo)
+                        if wire and user == ac['user']:
+                            violate('reply:missing:asker-closed-the-previous-connection', asker_close=ac,
+                                    suspending_listener=plan.get('suspend_listener'), **rinfo)
+                        else:
+                            violate('reply:missing', **rinfo)
                         continue
                     if len(replies) > 1:
                         violate('reply:duplicate', **rinfo)
